@@ -5,6 +5,11 @@ sys.path.insert(0, "/verif")
 from qsa.loader import Program
 from qsa.normalize import flat
 args = sys.argv[1:]
+pub = "--public" in args
+if pub: args.remove("--public")
+keep = ()
+if "--keep" in args:
+    i = args.index("--keep"); keep = tuple(args[i + 1].split(",")); del args[i:i + 2]
 patch = None
 if "--patch" in args:
     i = args.index("--patch"); patch = os.path.abspath(args[i + 1]); del args[i:i + 2]
@@ -16,6 +21,6 @@ try:
     prog = Program(repo)
     for fi in prog.iter_functions():
         if fi.qualname.endswith(args[0]) and (fi.qualname == args[0] or fi.qualname.endswith("." + args[0]) or "." not in args[0]):
-            print("#", fi.qualname); print(ast.unparse(flat(prog, fi, fi.cls).node)); print()
+            print("#", fi.qualname); print(ast.unparse(flat(prog, fi, fi.cls, keep=keep, public_methods=pub).node)); print()
 finally:
     if tmp: shutil.rmtree(tmp)
